@@ -25,7 +25,7 @@ JObj(mem) == [t |-> "obj", mem |-> mem, s |-> <<>>, n |-> 0, b |-> FALSE, items 
 JFloat(n) == [t |-> "float", mem |-> <<>>, s |-> <<>>, n |-> n, b |-> FALSE, items |-> <<>>]
 
 X == <<120>>
-Keys == {<<97>>, <<97, 46, 98>>, <<97, 92, 98>>, <<98>>, <<46>>}     \* a  a.b  a\b  b  .
+Keys == {<<97>>, <<97, 46, 98>>, <<97, 92, 98>>, <<98>>, <<46>>, <<>>}     \* a  a.b  a\b  b  .  and the empty name
 Leaves == {JStr(X), JStr(<<>>), JInt(1), JBool(TRUE), JNull, JArr(<<JStr(X), JInt(1)>>), JArr(<<>>), JObj(<<>>),
            \* arrays holding elements that are not scalars next to the scalars searched for
            JArr(<<JStr(X), JObj(<<>>)>>), JArr(<<JObj(<<[k |-> <<98>>, v |-> JStr(X)]>>), JInt(1), JNull>>),
